@@ -29,7 +29,11 @@ RULE = (
     "values; un-curated: empty map, no empty ids, cluster waveforms are the template array, "
     "n_clusters == n_templates. One hand-made dataset has 300 templates with uint16 ids and merges "
     "of high template ids (thorough: also 257 and 700 templates). Non-trivial: a merge of >=2 templates with unequal counts, or an "
-    "emptied id, or a count tie, or (un-curated) the highest template id unused.")
+    "emptied id, or a count tie, or (un-curated) the highest template id unused."
+    ' Later additions: templates exactly zero outside a footprint, symlinked files, results of ge'
+    't_template / get_cluster_mean_waveforms edited in place then queried again, in-place edits o'
+    'f spike_clusters on a dataset that was not curated before, one stray spike among 120 000, on'
+    'e cluster of 280 templates.')
 ASSUMPTIONS = ['float tolerance rtol 1e-5 for weighted means']
 
 
